@@ -1,12 +1,9 @@
 (* C19 -- final statements (for all environments = handler scripts, all op lists). *)
 From Coq Require Import ZArith List Bool Arith Lia Permutation Sorted.
-From LTV Require Import Params_gen.
-From LTV.C19 Require Import Model ProofsHeap ProofsSched ProofsRun.
+From LTV.C19 Require Import ParamsGen.
+From LTV.C19 Require Import Model AModel ProofsHeap ProofsSched ProofsRun AProofs ProofsSim.
 Import ListNotations.
 Open Scope Z_scope.
-
-Lemma params_ok_now_aux : 0 < min_time_wait /\ 0 < min_time_update.
-Proof. vm_compute. split; reflexivity. Qed.
 
 Definition wf_env (E : env) (n : nat) : Prop := forall e, valid E e = true -> (e < n)%nat.
 
@@ -218,12 +215,11 @@ Qed.
 
 (* a successful wait_for_ceil_seconds / update_wait_for_ceil_seconds schedules the entry on a whole
    second, never earlier than cached_time + dt and less than one second later *)
-Lemma wait_for_ceil_rounding : forall E s e dt s' b, Inv E s ->
+Lemma wait_for_ceil_rounding : forall E s e dt s' b, 0 < min_time_wait -> 0 < min_time_update -> Inv E s ->
   b = WaitForCeil e dt \/ b = UpdForCeil e dt -> exec_basic E s b = (s', OOk) ->
   exists D, due s' e D /\ now s + dt <= D < now s + dt + 1000000 /\ D mod 1000000 = 0.
 Proof.
-  intros E s e dt s' b I Hb H.
-  pose proof params_ok_now_aux as (P1 & P2).
+  intros E s e dt s' b P1 P2 I Hb H.
   exists (ceil_seconds (now s + dt)).
   assert (X : due s' e (ceil_seconds (now s + dt)) /\ 0 < ceil_seconds (now s + dt)).
   { destruct Hb; subst b; simpl in H.
@@ -274,17 +270,6 @@ Proof.
   intros E n ops sA sB outs W H.
   apply (run2_inv_gen E ops (init n, init n) (sA, sB) outs); auto; simpl; apply init_inv; auto.
 Qed.
-
-(* constants re-extracted from scheduler.cc *)
-Definition params_ok : bool :=
-  (0 <? Params.sched_min_days_wait) && (Params.sched_min_days_wait =? Params.sched_min_days_update) &&
-  (0 <? Params.sched_max_years_wait_for) &&
-  (Params.sched_max_years_wait_for =? Params.sched_max_years_wait_for_ceil) &&
-  (Params.sched_max_years_wait_for =? Params.sched_max_years_update_for) &&
-  (Params.sched_max_years_wait_for =? Params.sched_max_years_update_for_ceil).
-
-Lemma params_ok_now : params_ok = true /\ 0 < min_time_wait /\ min_time_wait = min_time_update.
-Proof. vm_compute. repeat split; reflexivity. Qed.
 
 (* ------------------------------------------------------------------ non-vacuity examples *)
 Definition B : Z := 31536000000000.
@@ -340,3 +325,12 @@ Proof.
     + destruct e; simpl; tauto.
   - eexists. vm_compute. reflexivity.
 Qed.
+
+(* choice-driven model: three timers due at the same time; both tie-breaking orders are accepted
+   (entry 0's slot erases entry 1 and re-arms itself later), a non-minimal choice is not *)
+Definition exA : astate := mkA [Some (B + 3); Some (B + 3); Some (B + 3)] (B + 3).
+Example ex_choice_hyp :
+  (exists a1 evs, aperform pC exE 8 exA (B + 3) [0; 2]%nat = (a1, evs, ADone)) /\
+  (exists a1 evs, aperform pC exE 8 exA (B + 3) [2; 1; 0]%nat = (a1, evs, ADone)) /\
+  (exists a1 evs, aperform pC exE 8 exA (B + 3) [0; 1]%nat = (a1, evs, ABad)).
+Proof. split; [|split]; eexists; eexists; vm_compute; reflexivity. Qed.
